@@ -270,7 +270,38 @@ func (e *Expression) evaluate(res fhir.Resource, options ...fhirpath.EvaluateOpt
 	}
 
 	result, err := e.expression.Evaluate(config.Context, collection)
-	return config.Context, result, err
+	if err != nil {
+		return config.Context, result, err
+	}
+	// A path through a packed (Any) contained resource yields elements of an unpacked copy:
+	// patching those would report success and leave the resource itself untouched.
+	for _, item := range result {
+		if msg, ok := item.(proto.Message); ok && !isNilMessage(msg) && !inTree(res.ProtoReflect(), msg) {
+			return nil, nil, fmt.Errorf("%w: the path does not lead to an element of the resource itself", ErrNotPatchable)
+		}
+	}
+	return config.Context, result, nil
+}
+
+// inTree reports whether target is, by identity, one of the messages that make up root.
+func inTree(root protoreflect.Message, target proto.Message) bool {
+	if root.Interface() == target {
+		return true
+	}
+	found := false
+	root.Range(func(fd protoreflect.FieldDescriptor, v protoreflect.Value) bool {
+		switch {
+		case fd.Message() == nil || fd.IsMap():
+		case fd.IsList():
+			for i := 0; i < v.List().Len() && !found; i++ {
+				found = inTree(v.List().Get(i).Message(), target)
+			}
+		default:
+			found = inTree(v.Message(), target)
+		}
+		return !found
+	})
+	return found
 }
 
 func (e *Expression) isSingletonOneof(msg proto.Message) bool {
